@@ -35,6 +35,9 @@ FLOORS = {"quick": {"demux_packets": 8000, "fib_empty_table_cases": 150, "defaul
                        "fib_walks": 160000, "reverse_walks": 40000, "e2e_packets": 160000, "e2e_hops": 1000000,
                        "e2e_shared_class_runs": 2000, "e2e_SP": 600, "e2e_WFQ": 600, "e2e_DRR": 600, "e2e_VirtualClock": 600}}
 KEYS = tuple(FLOORS["quick"].keys()) + ("demux_reconfigurations", "splitter_rewriting_receivers", "fattree_twin_trees", "fib_tables_with_default_route", "hub_synchronous_answers")
+# floors for the situations added with the later rounds of seeded changes (evidence that they were really exercised)
+FLOORS["quick"].update({'fib_tables_with_default_route': 70, 'hub_synchronous_answers': 200})
+FLOORS["thorough"].update({'fib_tables_with_default_route': 350, 'hub_synchronous_answers': 1000})
 
 
 def plan(tier):
